@@ -201,6 +201,27 @@ def fn_tree(spec, rec):
     check_mask(np.asarray(dst.to_mask()), expected, "pasted-subset-differs")
     check_mask(np.asarray(src.to_mask()), expected, "subset-differs-after-being-pasted")
     check_mask(data.get_mask(tree), expected, "original-differs-after-copy-evaluated")
+    # asking a selection which attributes it uses (viewers do, to decide whether a layer applies) is an evaluation too: it
+    # returns the union of the parts' attributes and alters neither the operands nor the dataset
+    pix_before = [id(c) for c in data.pixel_component_ids]
+    comps_before = [id(c) for c in data.components]
+    for st_, sub, snap in b.nodes:
+        try:
+            atts = st_.attributes
+        except Exception as e:  # noqa
+            if blame(e)[0] != "glue":
+                raise
+            rec.label("attributes-raises:" + sub["t"])
+            continue
+        if sub["t"] in ("and", "or", "xor", "multior") and atts is not None:
+            parts = [x for x, s2, _ in b.nodes if any(s2 is c for c in ([sub.get("a"), sub.get("b")] if sub["t"] != "multior" else sub["states"]))]
+            want = set()
+            for x in parts:
+                want |= set(x.attributes or ())
+            if set(atts) != want:
+                raise Mismatch("attributes-not-the-union-of-the-parts", {"node": sub["t"], "got": sorted(str(c) for c in atts), "expected": sorted(str(c) for c in want)})
+    if [id(c) for c in data.pixel_component_ids] != pix_before or len(data.pixel_component_ids) != data.ndim or [id(c) for c in data.components] != comps_before:
+        raise Mismatch("reading-attributes-altered-the-dataset", {"pixel_component_ids": [str(c) for c in data.pixel_component_ids], "ndim": data.ndim})
     # every operand is unaltered: parameters and own mask
     for st_, sub, snap in b.nodes:
         if snapshot(st_) != snap:
